@@ -63,7 +63,7 @@ def model (line : String) : String :=
     let tile : Option Nat := if (fmt.splitOn "-tile16").length > 1 then some 16 else if (fmt.splitOn "-tile32").length > 1 then some 32 else none
     let hex :=
       if fmt.startsWith "tiff" ∧ pix = "rgba8" then hexOf (tiffStoreRgba8 tile (w.toNat?.getD 1) (h.toNat?.getD 1) 0 (parseHex hex))
-      else if fmt.startsWith "tiff" ∧ tile.isSome ∧ pix = "rgb8" ∧ org = "alt" ∧ (fmt.splitOn "-cs").length = 1 then hexOf (reverse3 (parseHex hex))
+      else if fmt.startsWith "tiff" ∧ tile.isSome ∧ pix = "rgb8" ∧ (org = "alt" ∨ org.startsWith "alt-") ∧ (fmt.splitOn "-cs").length = 1 then hexOf (reverse3 (parseHex hex))
       else hex
     "ext | " ++ w ++ " " ++ h ++ " " ++ hex
   | _ => "bad-op"
